@@ -11,6 +11,7 @@ import math
 import random
 
 import torch
+from .core import sint
 
 from . import tlc, tv
 
@@ -60,7 +61,7 @@ def run(run):
              ("flat-rayleigh", lambda T: FlatFadingChannel("rayleigh", T, avg_noise_power=0.0), "FlatFadingChannel", None)]
     # --- exact y = h x + n with supplied csi and noise (Gaussian integers)
     for (kname, mk, comp, _) in kinds:
-        for shape in ((6,), (2, 5), (2, 1, 2, 3)):
+        for shape in ((6,), (1, 6), (2, 5), (1, 2, 3), (2, 1, 2, 3)):        # including batches of one: the batch axis must survive
             for cplx in (False, True):
                 n = 1
                 for d in shape:
@@ -80,7 +81,7 @@ def run(run):
                     y = mk(3)(x, csi=csi, noise=noise)
                     e["shape_ok"] = tuple(y.shape) == tuple(shape)
                     yl = y.reshape(-1).tolist()
-                    e.update({"xs": xs, "hs": hs, "ns": ns, "ys": [[int(round(z.real)), int(round(z.imag))] if abs(z.real - round(z.real)) < 1e-4 and abs(z.imag - round(z.imag)) < 1e-4 else [99999, 99999]
+                    e.update({"xs": xs, "hs": hs, "ns": ns, "ys": [[sint(z.real), sint(z.imag)] if abs(z.real - round(z.real)) < 1e-4 and abs(z.imag - round(z.imag)) < 1e-4 else [99999, 99999]
                                                                    for z in yl]})
                 except Exception as ex:
                     run.violate(comp, "channel_raised", cfg, {"error": repr(ex)[:200]})
@@ -92,7 +93,7 @@ def run(run):
     for (kname, mk, comp, _) in kinds:
         for L in Ls:
             for T in range(1, L + 1):
-                for shape in ((L,), (3, L)) + (((2, 1, 2, L // 2),) if (L % 2 == 0 and (T + L) % 3 == 0) else ()):
+                for shape in ((L,), (3, L)) + (((1, L),) if (T + L) % 2 == 0 else ()) + (((2, 1, 2, L // 2),) if (L % 2 == 0 and (T + L) % 3 == 0) else ()):
                     cfg = {"fading": kname, "case": "blocks", "L": L, "T": T, "ndim": len(shape), "divides": L % T == 0}
                     try:
                         y = mk(T)(torch.ones(shape))
@@ -126,11 +127,11 @@ def run(run):
         y = mk(1)(torch.ones(1000, NB // 1000))
         h = y.reshape(-1).to(torch.complex128)
         e = base_event()
-        e["gain_ppm"] = int(round(float((h.abs() ** 2).mean()) * 1e6))
+        e["gain_ppm"] = sint(float((h.abs() ** 2).mean()) * 1e6)
         e["gain_band_ppm"] = int(7e6 / math.sqrt(NB)) + 50
         if K is not None:
-            e["k10"] = int(round(K * 10))
-            e["los_ppm"] = int(round(abs(complex(h.mean())) ** 2 * 1e6))
+            e["k10"] = sint(K * 10)
+            e["los_ppm"] = sint(abs(complex(h.mean())) ** 2 * 1e6)
         add(e, comp, {"fading": kname, "case": "statistics", "K": K, "K_type": type(K).__name__})
         run.case(("stats", kname, K, type(K).__name__), nontrivial=True)
     # --- noise stage relative to the faded signal (as C07): supply csi, let the channel draw the noise
@@ -146,8 +147,8 @@ def run(run):
             nz = (y - faded).to(torch.complex128)
             sig = float((faded.abs() ** 2).mean())
             tid += 1
-            noise_evs.append({"ev": "Noise", "tid": tid, "N": B * L * 2, "family": "gaussian", "noise_cdb": int(round(1000 * math.log10(float((nz.abs() ** 2).mean())))),
-                              "expected_cdb": int(round(1000 * math.log10(sig) - 100 * snr)), "mean_ppm": 99999999, "verbatim": -1, "scaling": -1, "shape_ok": tuple(y.shape) == (B, L)})
+            noise_evs.append({"ev": "Noise", "tid": tid, "N": B * L * 2, "family": "gaussian", "noise_cdb": sint(1000 * math.log10(float((nz.abs() ** 2).mean()))),
+                              "expected_cdb": sint(1000 * math.log10(sig) - 100 * snr), "mean_ppm": 99999999, "verbatim": -1, "scaling": -1, "shape_ok": tuple(y.shape) == (B, L)})
             meta.append(("RayleighFadingChannel", {"fading": "rayleigh", "case": "noise_stage", "snr_db": snr, "complex": cplx}))
             evs.append(noise_evs[-1])
             run.case(("noise-stage", snr, cplx), nontrivial=True)
